@@ -22,13 +22,30 @@ PARTIAL = ['C12_comments_kept_covered_partial: presence of every kept comment is
            '(\\section, \\href, \\item[..], accents, math alphabets: several strip / re-case / re-style their argument) '
            'and matrix cells',
            'C12_math_verbatim_covered_partial: presence of the source of every verbatim formula, same covered positions',
+           'C12_comments_kept_covered2_partial, C12_math_verbatim_covered2_partial (Proofs/Covered2.v): the covered set extended by '
+           'the arguments of the replacement callables that pass an argument through unchanged or wrapped (both arguments of '
+           '\\href, the optional argument of \\item, the title of \\subsection / \\subsubsection / \\paragraph / '
+           '\\subparagraph, both arguments of the uebung formatter, the rendered argument of \\texorpdfstring) and by matrix '
+           'cells (markers without blank at the ends / newline); still partial: presence is FALSE (vm_compute witnesses '
+           'C12_comments_kept_not_covered_witness / C12_math_verbatim_not_covered_witness, each replayed on the real code) for '
+           'accents, math alphabets, the upper-casing \\part / \\chapter / \\section, \\title / \\author / \\date '
+           'without \\maketitle, arguments a template does not mention (\\footnote[..], \\sqrt[..]), arguments of '
+           'environments, and a comment written IN FRONT OF an argument (consumed by the expression parser: not in the tree)',
            'C12_source_level_partial (DESIGN 6/C12 C12_source_level, composed with C02_parse_unparse_partial): documents '
            'of the CORE grammar of C02 (text, groups, macros with mandatory braced arguments, $..$ \\(..\\) \\[..\\], '
            'comments, paragraph breaks) differing only in comment text convert equally for keep_comments=False and '
            'math_mode text / with-delimiters / remove; C12_source_level_all_modes_partial: the same for ALL four math modes '
            '(verbatim included) when the formulas of the two documents are identical (comments inside a formula are '
            'reproduced with its source in verbatim mode); not stated: the rest of the document grammar (environments, '
-           'optional arguments, specials, $$..$$); the tree-level non-interference theorems are complete']
+           'optional arguments, specials, $$..$$); the tree-level non-interference theorems are complete',
+           'C12_source_level2_partial, C12_source_level2_all_modes_partial (composed with C02_parse_unparse2_partial, '
+           'Proofs/Compose2Comments.v): the same over the EXTENDED document grammar (environments with arguments and math '
+           'bodies, $$..$$, specials, optional / star / single-token / verbatim arguments, comments IN FRONT OF arguments): '
+           'documents differing only in comment text (anywhere) convert equally for keep_comments=False and a non-verbatim '
+           'math mode; for ALL four math modes when formulas and equation environments (those rendered from their source) are '
+           'identical - comments inside any other environment remain free (C12_relational2 refines C12_relational: the '
+           'source slice of an environment matters only for equation environments). Partial only in that the extended '
+           'grammar is not the whole of LaTeX (see notes/C02.md)']
 REFUTED = []
 CASE_TIMEOUT = 10.0
 
